@@ -127,6 +127,19 @@ func substIdents(s string, sub map[string]string) string {
 
 // renormRel re-sorts the operands of == / != relations after substitution.
 func renormRel(s string) string {
+	// a comparison used as a boolean value: (a != b) == false is a == b
+	for _, tv := range []string{"true", "false"} {
+		for _, form := range [][2]string{{"", " == " + tv}, {tv + " == ", ""}} {
+			if strings.HasPrefix(s, form[0]) && strings.HasSuffix(s, form[1]) && len(s) > len(form[0])+len(form[1]) {
+				k := s[len(form[0]) : len(s)-len(form[1])]
+				if len(k) > 2 && k[0] == '(' && k[len(k)-1] == ')' && topLevelIndex(k, " == ") < 0 && topLevelIndex(k, " != ") < 0 {
+					if r, ok := relFromKey(k, tv == "true"); ok {
+						return renormRel(r)
+					}
+				}
+			}
+		}
+	}
 	for _, op := range []string{" == ", " != "} {
 		if i := topLevelIndex(s, op); i >= 0 {
 			x, y := s[:i], s[i+len(op):]
